@@ -38,16 +38,14 @@ pub open spec fn not_met_before(st: spec_fn(int) -> int, dem: spec_fn(int) -> in
 }
 pub open spec fn st_of<S: SupplyBound + ?Sized>(s: &S) -> spec_fn(int) -> int { |x: int| s.st(x) }
 
-pub open spec fn rta_is_o<F: Fn(Offset) -> SearchResult>(f: &F, g: spec_fn(int) -> Option<int>, max: int) -> bool {
-    forall |a: Offset, r: SearchResult| a.v() <= max && #[trigger] f.ensures((a,), r) ==> res_view(r) == g(a.v())
-}
-/// R10 (ASSUMED): `demand.steps_iter().map(Offset::closed_from_time_zero).take_while(|x| *x <= max)` mapped through the
-/// per-offset closure and folded by max_response_time
-#[verifier::external_body]
-pub fn vf_tail_steps_upto<RB: RequestBound + ?Sized, F: Fn(Offset) -> SearchResult>(rb: &RB, max_offset: Offset, rta: F) -> (res: SearchResult)
-    requires rb.wf(), forall |a: Offset| a.v() <= max_offset.v() && is_step(rbf_fn(rb), a.v()) ==> #[trigger] rta.requires((a,))
-    ensures forall |g: spec_fn(int) -> Option<int>| #[trigger] rta_is_o(&rta, g, max_offset.v()) ==> res_view(res) == fold_upto(rbf_fn(rb), g, max_offset.v() + 1)
-{ unimplemented!() }
+/// fold_upto is the FP-family fold over the step offsets below a
+pub proof fn lemma_fold_upto_is_fold_steps(f: spec_fn(int) -> int, g: spec_fn(int) -> Option<int>, a: int)
+    ensures fold_upto(f, g, a) == fold_steps(f, g, a)
+    decreases a
+{ if a > 0 { lemma_fold_upto_is_fold_steps(f, g, a - 1); } }
+/// interval length -> offset (what Offset::closed_from_time_zero computes)
+pub open spec fn off_of(d: Duration) -> Offset { Offset { val: (d.val - 1) as u64 } }
+
 
 /// dmax: the largest demand that is ever handed to service_time
 pub open spec fn supply_env<S: SupplyBound + ?Sized>(supply: &S, limit: int, dmax: int) -> bool {
@@ -63,18 +61,19 @@ fn bound_response_time<SBF, RBF, F, G>(
     bw_demand_bound: F,
     offset_demand_bound: G,
     limit: Duration,
-/*+*/    Ghost(wb): Ghost<spec_fn(int) -> int>,      // ghost (erased): the functions the two closures compute
+/*+*/    vf_n: usize,                                // R21: number of step candidates observed
+    Ghost(wb): Ghost<spec_fn(int) -> int>,      // ghost (erased): the functions the two closures compute
     Ghost(w2): Ghost<spec_fn(int, int) -> int>,
     Ghost(dmax): Ghost<int>,                    // ghost: the largest demand handed to the supply
 /*-*/) -> /*+*/(res: /*-*/SearchResult/*+*/)/*-*/
 where
     SBF: SupplyBound + ?Sized,
-    RBF: RequestBound + ?Sized,
+    RBF: /*@R22: RequestBound @*/RequestSteps/*@.*/ + ?Sized,
     F: Fn(Duration) -> Service,
     G: Fn(Offset, Duration) -> Service,
 //@+
     requires
-        supply_env(supply, limit.v(), dmax), demand.wf(),
+        supply_env(supply, limit.v(), dmax), demand.wf(), demand.rsteps_ok(vf_n as int), demand.rsteps_hz(vf_n as int) >= limit.v() + 1,
         forall |x: int| 1 <= x <= limit.v() ==> #[trigger] wb(x) <= dmax,
         forall |a: int, x: int| 0 <= a <= limit.v() && 1 <= x <= limit.v() ==> #[trigger] w2(a, x) <= dmax,
         forall |d: Duration| 1 <= d.v() <= limit.v() ==> #[trigger] bw_demand_bound.requires((d,)),
@@ -101,15 +100,31 @@ where
 //@-
     // Consider the search space of relevant offsets based on Lemma 7.
     // That is, we have to look at all points where the demand curve "steps".
-    /*@R10: let offsets = demand
-        .steps_iter()
+//@+
+    let ghost rf = rbf_fn(demand);
+    let ghost hz = demand.rsteps_hz(vf_n as int);
+    let ghost mx = max_bw.v() + 1;
+//@-
+    let offsets = demand
+        .steps_iter(/*+*/vf_n/*-*/)
         // Note that steps_iter() yields interval lengths, but we are interested in
         // offsets. Since the length of an interval [0, A] is A+1, we need to subtract one
         // to obtain the offset.
-        .map(Offset::closed_from_time_zero)
-        .take_while(|x| *x <= Offset::from_time_zero(max_bw));
+        .map(Offset::closed_from_time_zero/*+*/, Ghost(|d: Duration| off_of(d))/*-*/)
+        .take_while(|x/*+*/: &Offset/*-*/| /*+*/-> (r: bool) ensures r == (x.v() <= max_bw.v()) { /*@probe*/ /*-*/*x <= Offset::from_time_zero(max_bw)/*+*/ }, Ghost(|x: Offset| x.v() < max_bw.v() + 1)/*-*/);
+//@+
+    let ghost ss = offsets.0@;
+    // the stream of interval lengths that the chain consumed (an unnamed temporary of the expression above)
+    let ghost st: Seq<Duration> = choose |st: Seq<Duration>| #[trigger] steps_exact(st, rf, hz) && tw_of(ss, st.map_values(|d: Duration| off_of(d)), mx);
+    let ghost offs = st.map_values(|d: Duration| off_of(d));
+    proof {
+        assert(exists |st: Seq<Duration>| #[trigger] steps_exact(st, rf, hz) && tw_of(ss, st.map_values(|d: Duration| off_of(d)), mx));
+        assert forall |i: int| 0 <= i < st.len() implies (#[trigger] offs[i]).val == st[i].val - 1 by { assert(has(st, st[i].v())); }
+        lemma_steps_to_offsets(st, rf, hz, offs);
+    }
+//@-
     // for each relevant offset in the search space,
-    let rta_bounds = offsets.map( @*/let vf_rta = /*@.*/|offset/*+*/: Offset/*-*/| /*+*/-> (r: SearchResult)
+    /*@R21: let rta_bounds = offsets.map( @*/let vf_rta = /*@.*/|offset/*+*/: Offset/*-*/| /*+*/-> (r: SearchResult)
         requires
             offset.v() <= max_bw.v() <= limit.v(), is_step(rbf_fn(demand), offset.v()), supply_env(supply, limit.v(), dmax),
             forall |a: int, x: int| 0 <= a <= limit.v() && 1 <= x <= limit.v() ==> #[trigger] app2(&w2, a, x) <= dmax,
@@ -141,12 +156,20 @@ where
         }
 //@-
         fixed_point::search_with_offset(supply, offset, limit, &rhs)
-    }/*@R10: );
+    }/*@R21: );
     max_response_time(rta_bounds) @*/;
-    let vf_res = vf_tail_steps_upto(demand, Offset::from_time_zero(max_bw), vf_rta);
+    proof {
+        assert forall |i: int| 0 <= i < ss.len() implies #[trigger] vf_rta.requires((ss[i],)) by {
+            assert(ss[i] == offs[i]);
+            assert(off_has(offs, offs[i].v()));
+        }
+    }
+    let rta_bounds = offsets.map_rel(vf_rta);
+    let vf_res = max_response_time(rta_bounds.as_slice());
     proof {
         let g = |a: int| scan(sbf_of(supply), a, at_off(w2, a), 0, limit.v());
-        assert(rta_is_o(&vf_rta, g, max_bw.v()));
+        lemma_tail_fold(offs, rf, hz, mx, ss, rta_bounds.0@, g, vf_res);
+        lemma_fold_upto_is_fold_steps(rf, g, mx);
     }
     vf_res/*@.*/
 }
@@ -196,12 +219,14 @@ pub fn rta_event_source<SBF, RBF>(
     supply: &SBF,
     demand: &RBF,
     limit: Duration,
+/*+*/vf_n: usize,/*-*/
 ) -> /*+*/(res: /*-*/fixed_point::SearchResult/*+*/)/*-*/
 where
     SBF: SupplyBound + ?Sized,
-    RBF: RequestBound + ?Sized,
+    RBF: /*@R22: RequestBound @*/RequestSteps/*@.*/ + ?Sized,
 //@+
-    requires supply_env(supply, limit.v(), demand.rbf(limit.v() + 1)), rb_env(demand, limit.v())
+    requires demand.rsteps_ok(vf_n as int), demand.rsteps_hz(vf_n as int) >= limit.v() + 1,
+        supply_env(supply, limit.v(), demand.rbf(limit.v() + 1)), rb_env(demand, limit.v())
     ensures res_view(res) == es_spec(supply, demand, limit.v())
 //@-
 {
@@ -230,7 +255,7 @@ where
 //@-
     // solve the fixed point for all steps of the demand curve up to
     // the maximum busy-window length and return the maximum (or divergence)
-    bound_response_time(supply, demand, rhs_busy_window, rhs, limit/*+*/, Ghost(rbf_fn(demand)), Ghost(es_w2(rbf_fn(demand))), Ghost(demand.rbf(limit.v() + 1))/*-*/)
+    bound_response_time(supply, demand, rhs_busy_window, rhs, limit/*+*/, vf_n, Ghost(rbf_fn(demand)), Ghost(es_w2(rbf_fn(demand))), Ghost(demand.rbf(limit.v() + 1))/*-*/)
 }
 //@end
 
@@ -295,13 +320,15 @@ pub fn rta_timer<SBF, RBF1, RBF2>(
     interfering_demand: &RBF2,
     blocking_bound: Service,
     limit: Duration,
+/*+*/vf_n: usize,/*-*/
 ) -> /*+*/(res: /*-*/fixed_point::SearchResult/*+*/)/*-*/
 where
     SBF: SupplyBound + ?Sized,
-    RBF1: RequestBound + ?Sized,
+    RBF1: /*@R22: RequestBound @*/RequestSteps/*@.*/ + ?Sized,
     RBF2: RequestBound + ?Sized,
 //@+
-    requires supply_env(supply, limit.v(), two_dmax(own_demand, interfering_demand, blocking_bound.v(), limit.v())), two_env(own_demand, interfering_demand, blocking_bound.v(), limit.v())
+    requires own_demand.rsteps_ok(vf_n as int), own_demand.rsteps_hz(vf_n as int) >= limit.v() + 1,
+        supply_env(supply, limit.v(), two_dmax(own_demand, interfering_demand, blocking_bound.v(), limit.v())), two_env(own_demand, interfering_demand, blocking_bound.v(), limit.v())
     ensures res_view(res) == timer_spec(supply, own_demand, interfering_demand, blocking_bound.v(), limit.v())
 //@-
 {
@@ -365,7 +392,7 @@ where
         lemma_intf_not_met(supply, own, own, lw_fn(own_demand), zero_fn(), oth, b, wb, limit.v());
     }
 //@-
-    bound_response_time(supply, own_demand, rhs_bw, rhs, limit/*+*/, Ghost(timer_wb(rbf_fn(own_demand), rbf_fn(interfering_demand), blocking_bound.v())), Ghost(intf_w2(rbf_fn(own_demand), lw_fn(own_demand), zero_fn(), rbf_fn(interfering_demand), blocking_bound.v())), Ghost(two_dmax(own_demand, interfering_demand, blocking_bound.v(), limit.v()))/*-*/)
+    bound_response_time(supply, own_demand, rhs_bw, rhs, limit/*+*/, vf_n, Ghost(timer_wb(rbf_fn(own_demand), rbf_fn(interfering_demand), blocking_bound.v())), Ghost(intf_w2(rbf_fn(own_demand), lw_fn(own_demand), zero_fn(), rbf_fn(interfering_demand), blocking_bound.v())), Ghost(two_dmax(own_demand, interfering_demand, blocking_bound.v(), limit.v()))/*-*/)
 }
 //@end
 
@@ -380,13 +407,15 @@ pub fn rta_polling_point_callback<SBF, RBF1, RBF2>(
     own_demand: &RBF1,
     interfering_demand: &RBF2,
     limit: Duration,
+/*+*/vf_n: usize,/*-*/
 ) -> /*+*/(res: /*-*/fixed_point::SearchResult/*+*/)/*-*/
 where
     SBF: SupplyBound + ?Sized,
-    RBF1: RequestBound + ?Sized,
+    RBF1: /*@R22: RequestBound @*/RequestSteps/*@.*/ + ?Sized,
     RBF2: RequestBound + ?Sized,
 //@+
-    requires supply_env(supply, limit.v(), two_dmax(own_demand, interfering_demand, 0, limit.v())), two_env(own_demand, interfering_demand, 0, limit.v())
+    requires own_demand.rsteps_ok(vf_n as int), own_demand.rsteps_hz(vf_n as int) >= limit.v() + 1,
+        supply_env(supply, limit.v(), two_dmax(own_demand, interfering_demand, 0, limit.v())), two_env(own_demand, interfering_demand, 0, limit.v())
     ensures res_view(res) == pp_spec(supply, own_demand, interfering_demand, limit.v())
 //@-
 {
@@ -445,7 +474,7 @@ where
         lemma_intf_not_met(supply, own, own, lw_fn(own_demand), zero_fn(), oth, 0, wb, limit.v());
     }
 //@-
-    bound_response_time(supply, own_demand, rhs_bw, rhs, limit/*+*/, Ghost(timer_wb(rbf_fn(own_demand), rbf_fn(interfering_demand), 0)), Ghost(intf_w2(rbf_fn(own_demand), lw_fn(own_demand), zero_fn(), rbf_fn(interfering_demand), 0)), Ghost(two_dmax(own_demand, interfering_demand, 0, limit.v()))/*-*/)
+    bound_response_time(supply, own_demand, rhs_bw, rhs, limit/*+*/, vf_n, Ghost(timer_wb(rbf_fn(own_demand), rbf_fn(interfering_demand), 0)), Ghost(intf_w2(rbf_fn(own_demand), lw_fn(own_demand), zero_fn(), rbf_fn(interfering_demand), 0)), Ghost(two_dmax(own_demand, interfering_demand, 0, limit.v()))/*-*/)
 }
 //@end
 
@@ -472,15 +501,17 @@ pub fn rta_processing_chain<SBF, RBF1, RBF2, RBF3, RBF4>(
     full_chain: &RBF3,
     other_chains: &RBF4,
     limit: Duration,
+/*+*/vf_n: usize,/*-*/
 ) -> /*+*/(res: /*-*/fixed_point::SearchResult/*+*/)/*-*/
 where
     SBF: SupplyBound + ?Sized,
     RBF1: RequestBound + ?Sized,
     RBF2: RequestBound + ?Sized,
-    RBF3: RequestBound + ?Sized,
+    RBF3: /*@R22: RequestBound @*/RequestSteps/*@.*/ + ?Sized,
     RBF4: RequestBound + ?Sized,
 //@+
-    requires supply_env(supply, limit.v(), full_chain.rbf(2 * limit.v() + 1) + other_chains.rbf(2 * limit.v() + 1)), chain_env(chain_last_callback, chain_prefix, full_chain, other_chains, limit.v())
+    requires full_chain.rsteps_ok(vf_n as int), full_chain.rsteps_hz(vf_n as int) >= limit.v() + 1,
+        supply_env(supply, limit.v(), full_chain.rbf(2 * limit.v() + 1) + other_chains.rbf(2 * limit.v() + 1)), chain_env(chain_last_callback, chain_prefix, full_chain, other_chains, limit.v())
     ensures res_view(res) == chain_spec(supply, chain_last_callback, chain_prefix, full_chain, other_chains, limit.v())
 //@-
 {
@@ -555,7 +586,7 @@ where
         lemma_chain_not_met(supply, chain_last_callback, chain_prefix, full_chain, other_chains, limit.v());
     }
 //@-
-    bound_response_time(supply, full_chain, rhs_bw, rhs, limit/*+*/, Ghost(timer_wb(rbf_fn(full_chain), rbf_fn(other_chains), 0)), Ghost(intf_w2(rbf_fn(chain_last_callback), lw_fn(chain_last_callback), rbf_fn(chain_prefix), rbf_fn(other_chains), 0)), Ghost(full_chain.rbf(2 * limit.v() + 1) + other_chains.rbf(2 * limit.v() + 1))/*-*/)
+    bound_response_time(supply, full_chain, rhs_bw, rhs, limit/*+*/, vf_n, Ghost(timer_wb(rbf_fn(full_chain), rbf_fn(other_chains), 0)), Ghost(intf_w2(rbf_fn(chain_last_callback), lw_fn(chain_last_callback), rbf_fn(chain_prefix), rbf_fn(other_chains), 0)), Ghost(full_chain.rbf(2 * limit.v() + 1) + other_chains.rbf(2 * limit.v() + 1))/*-*/)
 }
 //@end
 
